@@ -62,8 +62,11 @@ THEOREMS = [
     "C05_root_ok_of_valid",
     "C05_exact_root_sound_partial",
     "C05_exact_root_rejects",
+    "C05_exact_member_step",
+    "C05_exact_member_sound_partial",
     "C05_unit_variant_object_refuted",
-    "C05_enum_bytelen_refuted",
+    "C05_exact_detects_bytelen_filter",
+    "C05_bytelen_regression",
     "C05_optional_null_refuted",
     "C05_internal_unit_variant_extra_refuted",
 ]
@@ -486,13 +489,6 @@ def classify_known(ctx, v):
     # F3: an explicit null for a member that is not required and whose schema does not admit null
     if v.get("position_is_optional_member") and v.get("position_value", 0) is None and "position_value" in v:
         return listed.get("explicit-null-for-optional-non-nullable-member")
-    # F1: a member of "enum" whose BYTE length satisfies min/maxLength while its scalar count does not
-    pv = v.get("position_value", inst)
-    if isinstance(pos, dict) and "enum" in pos and isinstance(pv, str) and pv in pos["enum"]:
-        nb, nc = len(pv.encode("utf-8")), len(pv)
-        lo, hi = pos.get("minLength", 0), pos.get("maxLength", 10 ** 9)
-        if lo <= nb <= hi and not (lo <= nc <= hi):
-            return listed.get("string-enum-value-kept-by-byte-length-filter")
     return None
 
 
@@ -536,8 +532,9 @@ def run(ctx):
         "instance domain: integers written as integer literals (DESIGN 3.2)",
         "a struct also deserialises from a JSON array (serde_derive visit_seq): 'type: object' of non-scalars is not one "
         "of the enforced kinds; C05_required_enforced / C05_closed_enforced / C05_exact_root_sound speak about objects",
-        "exact_root_sound is root-level (one schema node against one type); the recursive lifting through members / items "
-        "/ references and the tag transfer are evaluated by the checker but their soundness is not proved (_partial)",
+        "exact soundness is proved at the root position and one step through struct members (iterable along any path of "
+        "struct members); the lifting through array items / tuple positions / map values / references and the tag "
+        "transfer are evaluated by the checker but their soundness is not proved (_partial)",
         "the forall-schema quantifier is discharged per explored document (validator evaluation + direct evaluation)",
     ]
     vlib.build_harness(bins=("vh",))
@@ -705,7 +702,7 @@ def run(ctx):
             want = "F" if cc[i][1].get("exact") == "false" else "T"
             if r != want:
                 cwrong.append({"case": cc[i][0], "definition": n, "exact": r, "expected": want})
-        ctx.oblige("validator on the curated corpus: false exactly on the byte-length cases (%d definitions)" % len(cres),
+        ctx.oblige("validator on the curated corpus: true on every definition (incl. the regression cases of the fixed C05-F1) (%d definitions)" % len(cres),
                    not cwrong, json.dumps(cwrong)[:1500])
         ctx.coverage["validator_curated"] = {"%s/%s" % (cc[i][0], n): r for (i, n), r in cres.items()}
         ctx.coverage["validator_skipped_untranslatable_docs"] = len(skp) + len(cskp)
